@@ -28,6 +28,7 @@ func runC15(c *Ctx) {
 	c.Rule("C15.R2", "ChooseHost delegates only to {matched active entry, full set when no criteria, fallback}", 8)
 	c.Rule("C15.R3", "fallback policy switch matches the three documented policies in both builders", 6)
 	c.Rule("C15.R4", "key/value lists of sibling subsets never share a backing array (no append onto a loop-invariant slice)", 3)
+	c.Rule("C15.R5", "pointers a subset builder retains (cache keys) are freshly allocated, never shared scratch storage", 1)
 	c.NotDecided = append(c.NotDecided, "observational equivalence of the pre-indexed and the filtering builder over all host sets (value property over metadata maps)", "the sparse-set index contents (initIndex) on concrete metadata")
 
 	pkg := "pkg/upstream/cluster"
@@ -331,6 +332,7 @@ func runC15(c *Ctx) {
 		c.Check("C15.R2", funcKey(fn)+":no-fallback-no-host", fn.Pos(), ok, "without a fallback entry an unmatched request gets no host", "an unmatched request without fallback no longer yields 'no host'")
 	}
 	c15DistinctKeyStorage(c, pkg)
+	c15RetainedStorage(c, pkg)
 }
 
 // c15DistinctKeyStorage (R4): the key/value lists that identify sibling subsets must live in distinct storage.
